@@ -113,8 +113,8 @@ def allSome {α : Type} : List (Option α) → Option (List α)
 def statOf (f : St) (name : String) (lo hi : Option Rat) (c : IClosed) : Option String :=
   let clipped : Except Err St := clipW f lo hi
   match name with
-  | "min" => some (showOptRat (minIn f lo hi c))
-  | "max" => some (showOptRat (maxIn f lo hi c))
+  | "min" => some (match minIn f lo hi c with | some v => showRat v | none => "ERR Undefined")
+  | "max" => some (match maxIn f lo hi c with | some v => showRat v | none => "ERR Undefined")
   | _ =>
     match clipped with
     | .error e => some (showErr e)
@@ -123,6 +123,7 @@ def statOf (f : St) (name : String) (lo hi : Option Rat) (c : IClosed) : Option 
       | "integral" => some (showVal (integral g))
       | "mean" => some (showVal (mean g))
       | "var" => some (showVal (var g))
+      | "std2" => some (showVal (var g))
       | "median" => some (showVal (median g))
       | "modes" => some (" ".intercalate ((modes g).map showRat))
       | _ => none
@@ -292,7 +293,12 @@ def step (e : Env) (line : String) : Env × String :=
     | none => unbound
     | some f =>
       match parseIClosed f.closed c, allSome (ivs.map parseIv) with
-      | some c, some ivs => (e, " ".intercalate (ivs.map fun iv => slicerStatStr f name c iv))
+      | some c, some ivs =>
+        let outs := ivs.map fun iv => slicerStatStr f name c iv
+        -- a statistic that does not exist on some slice (mode / median of a slice without any
+        -- finite defined piece) makes the whole call fail in the implementation
+        if (name == "modes" || name == "median") && outs.any (fun o => o == "err" || o == "nan") then (e, "ERR Undefined")
+        else (e, " ".intercalate outs)
       | _, _ => bad
   | "resample" :: r2 :: r :: name :: c :: ivs =>
     match e.get r with
@@ -300,9 +306,9 @@ def step (e : Env) (line : String) : Env × String :=
     | some f =>
       match parseIClosed f.closed c, allSome (ivs.map parseIv) with
       | some c, some ivs =>
-        if !nonOverlapping ivs then (e, "ERR ValueError") else
+        if !nonOverlapping c ivs then (e, "ERR ValueError") else
         match allSome (ivs.map fun iv => slicerStatVal f name c iv) with
-        | none => (e, "ERR Assertion")
+        | none => (e, "ERR Undefined")   -- the statistic does not exist on some slice
         | some vals => assign e r2 (resampleWith f ivs vals)
       | _, _ => bad
   | ["rolling", r, l, rr, lo, hi] =>
@@ -459,11 +465,15 @@ def step (e : Env) (line : String) : Env × String :=
       let st : Option HistStat := match stat with
         | "sum" => some .sum | "frequency" => some .frequency | "density" => some .density
         | "probability" => some .probability | _ => none
-      let bs := allSome (bins.map fun b => match b.splitOn ":" with
+      let bs := if bins == ["unit"] then some [] else allSome (bins.map fun b => match b.splitOn ":" with
         | [l, r] => do let l ← parseRat l; let r ← parseRat r; pure (l, r)
         | _ => none)
       match parseSide cl, st, bs with
-      | some cl, some st, some bs => (e, " ".intercalate ((hist f bs cl st).map showVal))
+      | some cl, some st, some bs =>
+        if bins == ["unit"] then
+          let ub := unitBins f cl
+          (e, " ".intercalate (((hist f ub cl st).zip ub).map fun (v, lr) => s!"{showRat lr.1}:{showRat lr.2}={showVal v}"))
+        else (e, " ".intercalate ((hist f bs cl st).map showVal))
       | _, _, _ => bad
   | [which, a, b, lo, hi, lag, cp] =>
     if which == "cov" || which == "corr" then
